@@ -1,40 +1,7 @@
 import Mc.Drv.Common
-import Mc.Sync.Decorator
-import Mc.Sync.Rolling
+import Mc.Spec.Trace
 /- Driver side of the sync traces: parsing, replay of the model against the recorded calls. -/
 namespace Mc.Drv
-
-structure Rec where
-  idx : Nat
-  verb : String
-  group : String
-  resource : String
-  ns : String
-  name : String
-  body : J
-  opts : J
-  code : Int
-  reason : String
-  resp : J
-  pre : Option J
-  post : Option J
-  injected : Bool
-  hook : String
-  hookReq : J
-  hookResp : Option J
-  hookRaw : String
-  deriving Inhabited
-
-def Rec.ofJ (j : J) : Rec :=
-  { idx := (j.getInt "i").toNat, verb := j.getStr "verb", group := j.getStr "group", resource := j.getStr "resource",
-    ns := j.getStr "ns", name := j.getStr "name", body := j.getD "body", opts := j.getD "opts",
-    code := j.getInt "code", reason := j.getStr "reason", resp := j.getD "resp",
-    pre := j.opt "pre", post := j.opt "post", injected := j.getBool "injected",
-    hook := j.getStr "hook", hookReq := j.getD "hookReq", hookResp := j.get? "hookResp", hookRaw := j.getStr "hookRaw" }
-
-def Rec.isHook (r : Rec) : Bool := r.verb == "hook"
-def Rec.isWrite (r : Rec) : Bool := ["create", "update", "updateStatus", "delete", "patchRemove", "apply"].contains r.verb
-def Rec.ok (r : Rec) : Bool := r.code < 300
 
 def checkOfJ (j : J) : Check :=
   { type := j.getStr "type", status := (j.opt "status").bind J.str?, reason := (j.opt "reason").bind J.str? }
@@ -131,6 +98,19 @@ def normRevBody (j : J) : J :=
       .obj (setKey "children" (.arr sorted) j.fields)
   | _ => j
 
+/-- parent status bodies: the text of a RolloutWaiting message names whichever unhappy child Go's map
+    iteration met first; it is dropped before comparing -/
+def normStatusBody (j : J) : J :=
+  match nestedField j ["status", "conditions"] with
+  | .ok (some (.arr cs)) =>
+      let cs' := cs.map (fun c => if strAt c ["reason"] == "RolloutWaiting" then J.obj (eraseKey "message" c.fields) else c)
+      match setNestedField j (.arr cs') ["status", "conditions"] with
+      | .ok j' => j'
+      | .error _ => j
+  | _ => j
+
+def normBody (j : J) : J := normStatusBody (normRevBody j)
+
 def reqText (q : Req) : String :=
   match q with
   | .api v t _ _ => s!"{v.name} {t.group}/{t.resource} {t.ns}/{t.name}"
@@ -147,7 +127,7 @@ def replay {α : Type} : Prog α → RState → Nat → Option α × RState
         let diffs : List String :=
           match q with
           | .api v _ body opts =>
-              (if v != .get && v != .delete && !((normRevBody body).eqv (normRevBody r.body)) then [s!"body of {reqText q} differs: model {body.render} impl {r.body.render}"] else []) ++
+              (if v != .get && v != .delete && !((normBody body).eqv (normBody r.body)) then [s!"body of {reqText q} differs: model {body.render} impl {r.body.render}"] else []) ++
               (if v == .delete && !(opts.eqv r.opts) then [s!"options of {reqText q} differ: model {opts.render} impl {r.opts.render}"] else [])
           | .hook _ req => if !(req.eqv r.hookReq) then [s!"{reqText q} request differs: model {req.render} impl {r.hookReq.render}"] else []
         replay (k (respOfRec r)) { recs := recs', mismatches := st.mismatches ++ diffs, order := st.order ++ [r.idx] } fuel
